@@ -34,13 +34,12 @@ theorem one_notification (cfg : Cfg) (rib : Bool) (evs : List Event) (xs ys : Li
   rw [h] at hg
   exact accepted_dead hg (Or.inl ⟨code, sub, st, rfl⟩)
 
-/-- **C10, no reply to a NOTIFICATION — full statement:** after the peer's NOTIFICATION was read
-    on a connection nothing is written on it, *whatever the NOTIFICATION looks like*.  FALSE of
-    the unchanged code for a NOTIFICATION whose header length is 19 or 20
-    (`notification_with_bad_length_is_answered`, F32): the per-type length check of the reader
-    answers it with 1/2.  Proved for the NOTIFICATIONs that pass the reader (ghost marker
-    `gotNotification c` = "`read_message` raised the received Notification on c"): -/
-theorem none_after_received_notification_partial (cfg : Cfg) (rib : Bool) (evs : List Event) (xs ys : List Out) (c : Nat)
+/-- **C10, no reply to a NOTIFICATION (full).** After the peer's NOTIFICATION was read on a
+    connection (ghost marker `gotNotification c`: `read_message` raised the received Notification
+    on c) nothing is written on it.  Since /repo 76f99ad this covers every NOTIFICATION, also one
+    whose header length is 19 or 20 (finding F32, repaired: the reader no longer answers it 1/2;
+    the message class `notifBadLen` of the rig is an ordinary `Msg.notification` for the model). -/
+theorem none_after_received_notification (cfg : Cfg) (rib : Bool) (evs : List Event) (xs ys : List Out) (c : Nat)
     (h : trace cfg rib evs = xs ++ Out.gotNotification c :: ys) :
     ∀ k st, Out.send c k st ∉ ys := by
   obtain ⟨g, hg⟩ := run_accepted cfg rib evs
@@ -48,21 +47,14 @@ theorem none_after_received_notification_partial (cfg : Cfg) (rib : Bool) (evs :
   rw [h] at hg
   exact accepted_dead hg (Or.inr rfl)
 
-/-- **finding F32.** A NOTIFICATION with a bad length is answered with NOTIFICATION 1/2.
-    Replayed on the real `Peer` by `corpus/C10/f32-notification-bad-length.json`. -/
-theorem notification_with_bad_length_is_answered :
-    Out.send 1 (.notification 1 2) .opensent ∈ trace plain false [.start, .connectOk, .recv 1 (.bad .notifLen)] := by
-  decide
-
-/-- **C10, the right code — full statement:** a coroutine reading the connection in use in state
-    `st` which is handed a message `m` that ends the session per the RFCs (`causeOf st m = some
-    cause`) writes exactly one thing on that connection, a NOTIFICATION whose (code, subcode) is
-    in `errorClass cause st`, and closes it.  FALSE of the unchanged code in exactly the cases
-    `Deviates st m` (findings F31, F32 below); proved for all the others, in every
-    reachable state: -/
-theorem code_is_class_partial (s : State) (hinv : Inv s) (c : Nat) (k : Conn)
+/-- **C10, the right code (full).** A coroutine reading the connection in use in state `st`
+    which is handed a message `m` that ends the session per the RFCs (`causeOf st m = some cause`)
+    writes exactly one thing on that connection, a NOTIFICATION whose (code, subcode) is in
+    `errorClass cause st`, and closes it — in every state satisfying the invariant of the runs.
+    (Until /repo 8ee2e7e an OPEN in ESTABLISHED was the exception, finding F31.) -/
+theorem code_is_class (s : State) (hinv : Inv s) (c : Nat) (k : Conn)
     (haw : awaited s = some c) (hc : s.conn = some k) (hk : k.id = c) (hr : k.rst = false)
-    (m : Msg) (cause : Cause) (hcause : causeOf s.fsm m = some cause) (hd : Deviates s.fsm m = false) :
+    (m : Msg) (cause : Cause) (hcause : causeOf s.fsm m = some cause) :
     ∃ code sub, sendsOn c (deliver m s).2 = [.notification code sub] ∧ (code, sub) ∈ errorClass cause s.fsm ∧
       Out.close c ∈ (deliver m s).2 ∧ (deliver m s).1.conn = none := by
   have hst : isReading s.fsm = true := by
@@ -80,38 +72,36 @@ theorem code_is_class_partial (s : State) (hinv : Inv s) (c : Nat) (k : Conn)
     | done => simp [awaited, hp] at haw
     | passiveWait => simp [awaited, hp] at haw
     | connecting => simp [awaited, hp] at haw
-  rw [deliver_eq_onNotify m s hinv c k haw hc hk cause hcause (by simp [hd])]
+  rw [deliver_eq_onNotify m s hinv c k haw hc hk cause hcause]
   obtain ⟨h1, h2, h3⟩ := onNotify_sends (modelCode s.fsm m).1 (modelCode s.fsm m).2 s k hc hr
   subst hk
-  exact ⟨_, _, h1, modelCode_in_class s.fsm m cause hst hcause hd, h2, h3⟩
+  exact ⟨_, _, h1, modelCode_in_class s.fsm m cause hst hcause, h2, h3⟩
 
 /-- ... in particular after ANY list of events: the state a run reaches satisfies `Inv`. -/
-theorem code_is_class_partial_run (cfg : Cfg) (rib : Bool) (evs : List Event) (c : Nat) (k : Conn)
+theorem code_is_class_run (cfg : Cfg) (rib : Bool) (evs : List Event) (c : Nat) (k : Conn)
     (haw : awaited (run (init cfg rib) evs).1 = some c) (hc : (run (init cfg rib) evs).1.conn = some k)
     (hk : k.id = c) (hr : k.rst = false) (m : Msg) (cause : Cause)
-    (hcause : causeOf (run (init cfg rib) evs).1.fsm m = some cause)
-    (hd : Deviates (run (init cfg rib) evs).1.fsm m = false) :
+    (hcause : causeOf (run (init cfg rib) evs).1.fsm m = some cause) :
     ∃ code sub, sendsOn c (deliver m (run (init cfg rib) evs).1).2 = [.notification code sub] ∧
       (code, sub) ∈ errorClass cause (run (init cfg rib) evs).1.fsm ∧
       Out.close c ∈ (deliver m (run (init cfg rib) evs).1).2 ∧ (deliver m (run (init cfg rib) evs).1).1.conn = none :=
-  code_is_class_partial _ (run_inv evs _ (inv_init cfg rib)) c k haw hc hk hr m cause hcause hd
+  code_is_class _ (run_inv evs _ (inv_init cfg rib)) c k haw hc hk hr m cause hcause
 
-/-- **finding F31.** An OPEN read in ESTABLISHED is silently accepted: nothing is written, the
-    session goes on (RFC 4271 §8.2.2 / RFC 6608: NOTIFICATION 5/3). -/
-theorem open_in_established_is_ignored :
+/-- F31 repaired (/repo 8ee2e7e): an OPEN read in ESTABLISHED is answered 5/3 and the session closed. -/
+example :
     (step (run (init plain false) [.start, .connectOk, .recv 1 (.openOk false), .recv 1 .keepalive, .tick]).1
-      (.recv 1 (.openOk false))).2 = [] ∧
-    causeOf .established (.openOk false) = some (.unexpected (.openOk false)) := by
+      (.recv 1 (.openOk false))).2 =
+      [.send 1 (.notification 5 3) .established, .down, .fsm .established .idle, .close 1] := by
   decide
 
-/-- **finding.** The wait for the OPEN (the "large" hold timer of OpenSent, RFC 4271 §8.2.2
-    event 10) expires with NOTIFICATION 5/1 "unexpected message in OpenSent", not 4/0. -/
-theorem openwait_is_answered_5_1 :
+/-- the configured wait for the peer's OPEN ends the attempt with 5/1 (fixed text of C12), which
+    is what `errorClass` asks for. -/
+example :
     Out.send 1 (.notification 5 1) .opensent ∈ trace plain false [.start, .connectOk, .openwaitExpired] ∧
-    (5, 1) ∉ errorClass .openTimer .opensent := by
+    (5, 1) ∈ errorClass .openTimer .opensent := by
   decide
 
-/-- **finding F30.** The outgoing connection is in OPENSENT, an incoming one is adopted: the
+/-- **finding F30 (open, known finding).** The outgoing connection is in OPENSENT, an incoming one is adopted: the
     coroutine keeps waiting on the closed one; when its wait expires the NOTIFICATION goes to the
     adopted connection — in state IDLE, on a connection on which no OPEN was ever written. -/
 theorem f30_witness :
@@ -172,11 +162,11 @@ theorem code_names_rfc :
 
 /-! ## non-vacuity -/
 
-/-- `code_is_class_partial` applies: a KEEPALIVE before the OPEN is answered 5/1, once, and the connection closed. -/
+/-- `code_is_class` applies: a KEEPALIVE before the OPEN is answered 5/1, once, and the connection closed. -/
 example :
     let s := (run (init plain false) [.start, .connectOk]).1
     awaited s = some 1 ∧ causeOf s.fsm .keepalive = some (.unexpected .keepalive) ∧
-    Deviates s.fsm .keepalive = false ∧ (step s (.recv 1 .keepalive)).2 =
+    (step s (.recv 1 .keepalive)).2 =
       [.send 1 (.notification 5 1) .opensent, .down, .fsm .opensent .idle, .close 1] := by
   decide
 
